@@ -279,6 +279,154 @@ def standin_unit(tier: str, seed: int):
     return harness
 
 
+def validator_harness(which: str, shape: str):
+    """The option layer above unravel/unravel_2d (`Ranges`, `Ranges2D` before-validators): what
+    the user wrote as several command-line words denotes what the *joined* expression denotes -
+    the validator hands exactly one string to the range parser (all words, in order, joined by
+    the separator) and returns its result unchanged; a dict / non-string value passes through."""
+    def harness(I: Interp) -> None:
+        import typing
+        import gallia.command  # noqa: F401
+        from gallia import utils
+        from gallia.command import config as C
+        ann = getattr(C, which)
+        f = typing.get_args(ann)[1].func
+        parser = utils.unravel_2d if which == "Ranges2D" else utils.unravel
+        sep = " " if which == "Ranges2D" else ","
+        calls: list[V] = []
+        results: list[V] = []
+
+        def model(I2: Interp, a: list[V], k: dict[str, V]) -> V:
+            calls.append(a[0])
+            if shape not in ("dict", "str"):
+                # checked at the call: what the code does with a partial result afterwards
+                # need not be within the subset
+                parts = [z3.String(f"x{i}") for i in range(int(shape))]
+                want = parts[0]
+                for p_ in parts[1:]:
+                    want = z3.Concat(want, z3.StringVal(sep), p_)
+                got = a[0]
+                ok = I2.prove("W-all-words-in-order-joined-are-parsed-as-one-expression",
+                              models.str_term(got) == want if isinstance(got, VStr)
+                              and (got.t is not None or got.s is not None) else z3.BoolVal(False))
+                if not ok or len(calls) > 1:
+                    if len(calls) > 1:
+                        I2.fail("W-the-range-parser-is-called-exactly-once")
+                    from pyvc.engine import PathAbort
+                    raise PathAbort()
+            r = VObj(object, {}, tag=f"denotation-{len(calls)}")
+            results.append(r)
+            return r
+        models.MODELS[utils.unravel_2d] = model if which == "Ranges2D" else models.MODELS.get(
+            utils.unravel_2d)
+        models.MODELS[parser] = model
+        if shape == "dict":
+            arg: V = VDict([(VInt(1), NONE)])
+        elif shape == "str":
+            arg = VStr(t=z3.String("x"))
+        else:
+            arg = VList([VStr(t=z3.String(f"x{i}")) for i in range(int(shape))])
+        try:
+            r = I.call(f, arg)
+        except PyExc as e:
+            I.fail("W-validator-does-not-raise-for-well-formed-words", e.exc.cls.__name__)
+            return
+        if shape == "dict":
+            I.prove("W-a-dict-passes-through-unchanged", z3.BoolVal(r is arg and not calls))
+            return
+        I.prove("W-the-range-parser-is-called-exactly-once", z3.BoolVal(len(calls) == 1))
+        if len(calls) != 1:
+            return
+        got = calls[0]
+        if shape == "str":
+            if which == "Ranges2D":
+                I.prove("W-the-string-is-parsed-as-written",
+                        models.str_term(got) == z3.String("x") if isinstance(got, VStr)
+                        else z3.BoolVal(False))
+        I.prove("W-the-parser's-result-is-returned-unchanged", z3.BoolVal(r is results[0]))
+    return harness
+
+
+def config_types_harness(I: Interp) -> None:
+    """Transport parameters of a target URI are kept as written: no parameter field of a
+    transport configuration class is declared with a type that maps unknown values to another
+    value (an Enum with a `_missing_` hook coerces e.g. activation_type=0x42 to 0xFF)."""
+    import enum
+    import importlib
+    import pkgutil
+    import typing
+    import gallia.command  # noqa: F401
+    import gallia.transports as TP
+    from pydantic import BaseModel
+    n = 0
+    for mi in pkgutil.iter_modules(TP.__path__):
+        try:
+            mod = importlib.import_module(f"gallia.transports.{mi.name}")
+        except Exception:  # noqa: BLE001  (platform-specific transports)
+            continue
+        for name, cls in vars(mod).items():
+            if not (isinstance(cls, type) and issubclass(cls, BaseModel) and cls is not BaseModel
+                    and cls.__module__ == mod.__name__):
+                continue
+            for fname, fi in cls.model_fields.items():
+                def lossy(t: Any) -> list[str]:
+                    out: list[str] = []
+                    if isinstance(t, type) and issubclass(t, enum.Enum) and \
+                            "_missing_" in {k for b in t.__mro__ if b not in (
+                                enum.Enum, enum.IntEnum, enum.Flag, enum.IntFlag, object, int)
+                                for k in vars(b)}:
+                        out.append(t.__name__)
+                    for a in typing.get_args(t):
+                        out += lossy(a)
+                    return out
+                bad = lossy(fi.annotation)
+                n += 1
+                I.prove(f"Y-{name}.{fname}:declared-type-keeps-the-value-the-user-wrote",
+                        z3.BoolVal(not bad), f"coercing enum(s): {bad}")
+    I.prove("Y-transport-configuration-fields-found", z3.BoolVal(n >= 8), str(n))
+
+
+def native_validators() -> tuple[bool, str]:
+    import typing
+    import gallia.command  # noqa: F401
+    from gallia import utils
+    from gallia.command import config as C
+    f2 = typing.get_args(C.Ranges2D)[1].func
+    f1 = typing.get_args(C.Ranges)[1].func
+    words2 = [["1:1-3", "1:7"], ["2", "2:1,2"], ["2:1,2", "2"], ["1-2:5", "2:6", "3"],
+              ["0x01:0x10-0x12", "0x01:0x3e"]]
+    for w in words2:
+        got, want = f2(list(w)), utils.unravel_2d(" ".join(w))
+        if got != want or list(got) != list(want):
+            return True, f"Ranges2D{w} == {got}; the expression {' '.join(w)!r} denotes {want}"
+    for w in [["1-3", "7"], ["5", "1-2", "5"], ["0x10-0x12", "3"]]:
+        got1, want1 = f1(list(w)), utils.unravel(",".join(w))
+        if got1 != want1:
+            return True, f"Ranges{w} == {got1}; the expression denotes {want1}"
+    return False, "validators agree with the joined expression on the sampled word lists"
+
+
+def native_config_types() -> tuple[bool, str]:
+    import gallia.command  # noqa: F401
+    from gallia.transports.base import TargetURI
+    from gallia.transports.doip import DoIPConfig
+    from gallia.transports.hsfz import HSFZConfig
+    for cls, uri in ((DoIPConfig, "doip://127.0.0.1:13400?src_addr=0x0e00&target_addr=0x1d&"
+                                  "activation_type={v}&protocol_version=3"),
+                     (HSFZConfig, "hsfz://127.0.0.1:6801?src_addr={v}&dst_addr=0x10&"
+                                  "ack_timeout=1000")):
+        for v in (0x00, 0x01, 0x02, 0x42, 0x7F, 0xE0, 0xE5, 0xF3):
+            t = TargetURI(uri.format(v=hex(v)))
+            cfg = cls(**t.qs_flat)
+            for k, raw in t.qs_flat.items():
+                got = getattr(cfg, k)
+                if isinstance(got, int) and int(got) != int(raw, 0):
+                    return True, (f"{t.raw}: parameter {k}={raw} is configured as "
+                                  f"{int(got):#x}")
+    return False, "parameters of the sampled URIs are kept"
+
+
+
 def build_units(tier: str, seed: int = 0) -> list[Unit]:
     units = [Unit("net/join_host_port", join_harness), Unit("net/split_host_port", split_harness),
              Unit("TargetURI/from_parts/with-port", from_parts_harness(True), setup=install),
@@ -287,6 +435,15 @@ def build_units(tier: str, seed: int = 0) -> list[Unit]:
     for k in range(0, 4):
         units.append(Unit(f"TargetURI/qs_flat/keys={k}", qs_flat_harness(k),
                           bounded="query strings with <= 3 distinct keys"))
+    for which in ("Ranges2D", "Ranges"):
+        for shape in ("1", "2", "3", "str", "dict"):
+            if which == "Ranges" and shape == "str":
+                continue  # value.split() of an arbitrary string: left to the stand-in
+            units.append(Unit(f"ranges/option-validator/{which}/{shape}",
+                              validator_harness(which, shape),
+                              bounded="" if shape in ("str", "dict") else
+                              "argument lists of 1, 2 and 3 words"))
+    units.append(Unit("config/transport-parameter-types", config_types_harness))
     units.append(Unit("ranges/bounded-standin", standin_unit(tier, seed),
                       bounded="range grammar: <= 2 (quick) / 3 (thorough) elements over 5 values, "
                               "4 spellings; 2-d: <= 2 outer elements"))
@@ -334,6 +491,10 @@ def native_replay(unit: str, obligation: str, model: dict) -> tuple[bool, str]:
                 if got != want:
                     return True, f"join_host_port({host!r}, {port}) == {got!r}, expected {want!r}"
         return False, "join_host_port agrees with the spec on the sampled hosts"
+    if unit.startswith("config/"):
+        return native_config_types()
+    if unit.startswith("ranges/option-validator/"):
+        return native_validators()
     if unit.startswith("ranges/"):
         r = ranges_standin("quick", 0)
         return r["n_bad"] > 0, "; ".join(r["violations"][:5]) or "no disagreement"
